@@ -115,6 +115,10 @@ func ValidateResponse(ctx context.Context, input *ResponseValidationInput) error
 
 	// Read response's body.
 	body := input.Body
+	if body == nil {
+		// no body was supplied: validate it as an empty one
+		body = io.NopCloser(bytes.NewReader(nil))
+	}
 
 	// Response would contain partial or empty input body
 	// after we begin reading.
